@@ -96,6 +96,16 @@ Proof.
   destruct A as (A1 & A2 & _). destruct B as (B1 & B2 & _). split; [congruence|]. intros x. rewrite A2, B2. reflexivity.
 Qed.
 
+(** the client shows at least one diagnostic exactly when the evaluation of the current texts reports an error *)
+Theorem loop_diagnostic_iff_error w fs0 h r :
+  (exists l, vget (s_view (l_sc (fst (run (start w fs0) (h ++ [Request r]))))) l <> []) <->
+  snd (eval_folders (world_after w h)) <> [].
+Proof.
+  pose proof (request_after_history w fs0 h r) as A. cbn zeta in A.
+  destruct (run (start w fs0) (h ++ [Request r])) as [s l]. destruct A as (_ & A & _). cbn [fst].
+  rewrite errs_of_nonempty. split; intros [x H]; exists x; [rewrite <- A; exact H|rewrite A; exact H].
+Qed.
+
 (** an idle second does as well as a request for the diagnostics *)
 Theorem idle_after_history w fs0 h :
   let w' := world_after w h in
